@@ -490,7 +490,11 @@ func (x vc[T]) runChange(e *env, cfg caseCfg) (out []finding) {
 		e.consumed(cfg.Store, stored[len(stored)-1].Offset)
 	}
 	if rerr != nil {
-		bad("replay/apply failed", vfacet, "Replay returned %v", rerr)
+		facet := "error=" + errClass(rerr)
+		if strings.Contains(rerr.Error(), "unmarshal") {
+			facet += " " + vfacet // a decoding failure depends on the value
+		}
+		bad("replay/apply failed", facet, "Replay returned %v", rerr)
 		return
 	}
 	if len(stored) != nEvents {
@@ -832,20 +836,25 @@ func maxTokens(thorough bool) int {
 func errClass(err error) string {
 	s := err.Error()
 	for _, p := range []string{"state: unmarshal event", "state: unmarshal change message", "state: unmarshal value", "state: unknown entity type"} {
-		if strings.HasPrefix(s, p) {
+		if strings.Contains(s, p) {
 			return p
 		}
 	}
-	if i := strings.Index(s, ":"); i > 0 {
-		if j := strings.Index(s[i+1:], ":"); j > 0 {
-			return s[:i+1+j]
+	// unknown wording: keep it, without the variable parts (digits) and bounded
+	s = strings.Map(func(r rune) rune {
+		if r >= '0' && r <= '9' {
+			return '#'
 		}
+		return r
+	}, s)
+	if len(s) > 80 {
+		s = s[:80]
 	}
 	return s
 }
 
-// applyBad applies one input to the fixture; it returns the findings, whether the input
-// was non-trivial (passed as JSON) and whether the fixture must be rebuilt.
+// applyBad applies one input to the fixture; it returns the findings and whether the
+// fixture must be rebuilt (the input was accepted, changed something or panicked).
 func applyBad(f *fixture, data []byte) (out []finding, rebuilt bool) {
 	var err error
 	panicked := true
